@@ -107,7 +107,7 @@ class Handler(mode.Handler):
 def make_exec(f, starts=None, arg_consts=None, pre=(), inline=None, handler=None, peel=(), head_consts=None):
     return irx.Exec(f, handler or Handler(inline), havoc="auto", auto=True, split_max=16, starts=starts, arg_consts=arg_consts,
                     int_cells=lambda ob, off, n: ob == ST and (off, n) == POSN,
-                    callee_writes={"tinyjambu_permutation_256": {0: (0, 16)}}, pre_conds=pre, peel=peel, head_consts=head_consts, endptr=True)
+                    callee_writes={"tinyjambu_permutation_256": {0: (0, 16)}}, pre_conds=pre, peel=peel, head_consts=head_consts, endptr=True, unrotate=True)
 
 
 def posn_starts():
